@@ -36,6 +36,13 @@ BE_REG = ('backend impl_register_callback(stub)', _is('impl_register_callback'),
           # no-op and dylib backends by C12 (clause full_table_is_refused_never_entry_point_0)
           '__CPROVER_ensures(g_be_reg_key == (unsigned long)$0 && g_be_regs == __CPROVER_old(g_be_regs) + 1 && (unsigned long)$ret == g_be_reg_result && g_be_reg_result != 0)\n'
           '__CPROVER_assigns(g_be_reg_key, g_be_regs)')
+# the entry point is requested for the GUEST signature of the callback: int(long) is int(int) under the 32-bit guest ABI of vsbx
+# (independent ABI table of props/common.py: long -> 4 bytes); the application's own signature int(long) would make a foreign-ABI
+# backend build a trampoline that reads the wrong argument frame
+GUEST_SIG = 'impl_register_callbackIiJiEE'
+BE_REG_GUEST = (BE_REG[0], lambda fn, rec: fn.get('name') == 'impl_register_callback' and GUEST_SIG in fn.get('mangledName', ''), BE_REG[2])
+BE_REG_OTHER = ('backend impl_register_callback(instantiated for another signature)', _is('impl_register_callback'),
+                '__CPROVER_requires(0) /*@entry_point_is_requested_for_the_guest_signature_of_the_callback*/\n__CPROVER_ensures(1)\n__CPROVER_assigns()')
 BE_UNREG = ('backend impl_unregister_callback(stub)', _is('impl_unregister_callback'),
             '__CPROVER_ensures(g_be_unreg_key == (unsigned long)$0 && g_be_unregs == __CPROVER_old(g_be_unregs) + 1)\n__CPROVER_assigns(g_be_unreg_key, g_be_unregs)')
 INTERCEPTOR = ('sandbox_callback_interceptor(address only)', _is('sandbox_callback_interceptor'), '__CPROVER_assigns()')
@@ -68,7 +75,7 @@ def register_inst(tier):
          '  _Bool in_noabort; g_noabort = in_noabort; g_be_regs = 0; unsigned long in_be_result; g_be_reg_result = in_be_result; uintptr_t in_f;\n'
          '  struct %s r = $ROOT(&sb, (void *)in_f);\n' % CB)
     return Inst('c13_register_callback', 'rlbox_sandbox<vsbx>& s, tainted<int, vsbx> (*f)(rlbox_sandbox<vsbx>&, tainted<long, vsbx>)', 's.register_callback(f);', cl, h,
-                leaves=[dyn_keeps('g_be_regs == 0', 'a_refused_registration_has_not_taken_a_backend_entry_point'), BE_REG, INTERCEPTOR], prop=PROP, root_name='register_callback', tier=tier, pre=GH, facts=FACTS,
+                leaves=[dyn_keeps('g_be_regs == 0', 'a_refused_registration_has_not_taken_a_backend_entry_point'), BE_REG_GUEST, BE_REG_OTHER, INTERCEPTOR], prop=PROP, root_name='register_callback', tier=tier, pre=GH, facts=FACTS,
                 replay={'kind': 'register_full_table', 'no_inputs': True})
 
 
